@@ -42,7 +42,30 @@ def build_doc(seed):
     ch = OpenDocumentChart(); ch.chart.addElement(chart.Chart(attributes={'class': 'chart:bar'})); ch.addPicture('Pictures/inner.png', 'image/png', b'INNER')
     p = text.P(); doc.text.addElement(p); fr = draw.Frame(); p.addElement(fr); fr.addElement(draw.Object(href=doc.addObject(ch)))
     fr2 = draw.Frame(); p.addElement(fr2); fr2.addElement(draw.Image(href=doc.addPicture('Pictures/outer.png', 'image/png', b'OUTER')))
+    # a name used twice: the second style is renamed when it is inserted, and the paragraph attached before that goes on naming the
+    # first one - a rendering that "followed" the renaming would change which style the paragraph has
+    doc.automaticstyles.addElement(style.Style(name='RN', family='paragraph'))
+    doc.text.addElement(text.P(stylename='RN', text='names the first RN'))
+    late = text.P(text='reference made after attaching'); doc.text.addElement(late)
+    doc.automaticstyles.addElement(style.Style(name='RN', family='paragraph'))
+    late.setAttribute('stylename', 'RN')
     return doc
+
+def build_loaded(seed):
+    """the same through load(): content.xml and styles.xml each have an automatic style P1 (and a list style L1), as office suites write them"""
+    from odf.opendocument import load
+    auto_c = ('<style:style style:name="P1" style:family="paragraph"><style:paragraph-properties fo:text-align="end"/></style:style>'
+              '<style:style style:name="T1" style:family="text"><style:text-properties fo:font-weight="bold"/></style:style>')
+    body = '<text:p text:style-name="P1">body <text:span text:style-name="T1">bold %d</text:span></text:p><text:p text:style-name="P1"/>' % seed
+    auto_s = ('<style:style style:name="P1" style:family="paragraph"><style:paragraph-properties fo:text-align="center"/></style:style>'
+              '<style:style style:name="T1" style:family="text"><style:text-properties fo:font-style="italic"/></style:style>'
+              '<style:page-layout style:name="pm1"/>')
+    master = ('<style:master-page style:name="Standard" style:page-layout-name="pm1"><style:header><text:p text:style-name="P1">head '
+              '<text:span text:style-name="T1">it</text:span></text:p></style:header></style:master-page>')
+    order = [('content.xml', P.content_xml(body, autostyles=auto_c), 'text/xml'), ('styles.xml', P.styles_xml(autostyles=auto_s, masterstyles=master), 'text/xml'),
+             ('meta.xml', P.meta_xml(), 'text/xml'), ('settings.xml', P.settings_xml(), 'text/xml')]
+    if seed % 2: order = [order[1], order[0]] + order[2:]
+    return load(io.BytesIO(P.make_package(order)))
 
 def snapshot(doc, with_generator=False):
     from odf import text, style, meta, office
@@ -58,7 +81,7 @@ def snapshot(doc, with_generator=False):
         if q[1] != 'generator': idx[str(q)] = len(l)
     # what the queries return: the very elements, in the order returned
     qs = [[id(e) for e in doc.getElementsByType(f)] for f in (text.P, text.Span, style.Style, office.Text, style.MasterPage)]
-    st = [doc.getStyleByName(n) is not None for n in ('S0', 'S1', 'S2', 'HP', 'nope')]
+    st = [id(doc.getStyleByName(n)) if doc.getStyleByName(n) is not None else None for n in ('S0', 'S1', 'S2', 'HP', 'RN', 'MRN', 'P1', 'MP1', 'T1', 'MT1', 'nope')]
     return {'sections': secs, 'topnode': top, 'index': idx, 'queries': qs, 'styles': st, 'pictures': sorted(doc.Pictures), 'mimetype': doc.mimetype,
             'objects': [(id(o), o.folder, sorted(o.Pictures), X.walk_real(o.body)) for o in doc.childobjects]}
 
@@ -79,13 +102,15 @@ def run(ctx):
     for _ in range(40 if ctx.quick else 800):
         seqs.append(tuple(ctx.rng.choice(KINDS) for _ in range(ctx.rng.randint(3, 8))))
     ndocs = 2 if ctx.quick else 6
-    for dno in range(ndocs):
+    for dno in range(ndocs + 2):
         seed = ctx.seed * 100 + dno
+        # the last two documents come out of load(): names shared between content.xml and styles.xml were renamed on the way in
+        build = build_doc if dno < ndocs else build_loaded
         # reference outputs: each renderer on an identical fresh document
-        ref = {k: infoset(call(build_doc(seed), k)) for k in KINDS}
+        ref = {k: infoset(call(build(seed), k)) for k in KINDS}
         for seq in seqs:
             if ctx.quick and dno > 0 and len(seq) == 2 and (sum(map(hash, seq)) % 3): continue
-            doc = build_doc(seed)
+            doc = build(seed)
             base = snapshot(doc)
             hist = []
             for kind in seq:
@@ -116,7 +141,7 @@ def run(ctx):
                         ctx.violation('generator-not-normalised', {'doc_seed': seed, 'calls': list(hist)}, [str(g) for g in gens], 'exactly one: ' + TOOLSVERSION, {})
             ctx.nt((seed, seq))
             ctx.bump('len=%d' % len(seq))
-    ctx.exhaustive.append('every sequence of rendering calls up to length %d over %d calls, on %d documents' % (L, len(KINDS), ndocs))
+    ctx.exhaustive.append('every sequence of rendering calls up to length %d over %d calls, on %d built documents and 2 loaded ones (each with styles renamed because of a shared name)' % (L, len(KINDS), ndocs))
     ctx.sample({'calls': ['save', 'xml', 'metaxml'], 'checked': 'snapshot before/after each call, infoset of each output vs fresh document'})
 
 def replay(ctx, case):
